@@ -255,7 +255,12 @@ class Tokenizer:
                                     else:
                                         name = 'ATKEYWORD'
 
-                            value = found  # should not contain unicode escape (?)
+                            value = found
+                            if 'ATKEYWORD' == name:
+                                # an unknown at-keyword may contain escapes
+                                # like any other name (written for a
+                                # character the sheet's encoding lacks)
+                                value = self.unicodesub(_repl, value)
 
                         if self._doComments or (
                             not self._doComments and name != 'COMMENT'
